@@ -34,6 +34,7 @@ type Solver struct {
 	log      io.Writer
 	dead     bool
 	lastErr  string
+	curTimeout int
 }
 
 func solverArgs(kind string, timeoutMs int) (string, []string) {
@@ -97,6 +98,19 @@ func (s *Solver) send(line string) {
 	}
 	s.in.WriteString(line)
 	s.in.WriteByte('\n')
+}
+
+// SetTimeout changes the per-query time limit (milliseconds).
+func (s *Solver) SetTimeout(ms int) {
+	if ms == s.curTimeout {
+		return
+	}
+	s.curTimeout = ms
+	if s.kind == "cvc5" {
+		s.send(fmt.Sprintf("(set-option :tlimit-per %d)", ms))
+	} else {
+		s.send(fmt.Sprintf("(set-option :timeout %d)", ms))
+	}
 }
 
 func (s *Solver) Push() {
